@@ -78,3 +78,9 @@ package conf
 //@   ensures[C03] from_unix_int: istype(data, int) ==> result1 == nil && result0.(time.Time) == timeunix(data.(int), 0)
 //@   ensures[C03] from_unix_int64: istype(data, int64) ==> result1 == nil && result0.(time.Time) == timeunix(data.(int64), 0)
 //@   ensures[C03] unsupported: !istype(data, time.Time) && !istype(data, string) && !istype(data, int) && !istype(data, int64) ==> result1 != nil
+
+// TimeCoercerFactory returns the time coercer that parses strings with the given function.
+//@ func TimeCoercerFactory(format)
+//@   requires format != nil
+//@   pure
+//@   ensures[C03] result != nil && isclo(result, "conf.TimeCoercerFactory$1") && *captured(result, "conf.TimeCoercerFactory$1", 0) == format
